@@ -1,7 +1,7 @@
 (* C01 - the scheduler never unloads/closes a runner a request is still using; a runner is shut down at most
    once; a runner that has been shut down is never handed to a request.   Theorems only. *)
 From Coq Require Import List ZArith NArith Bool.
-From V Require Import Sched.Lts Sched.Reach Sched.InvClose Sched.InvLock Sched.InvRef Sched.InvLoad Sched.Thm Sched.Refute Sched.Examples.
+From V Require Import Sched.Lts Sched.Reach Sched.InvClose Sched.InvLock Sched.InvRef Sched.InvLoad Sched.LlmHealth Sched.Thm Sched.Refute Sched.Examples.
 Import ListNotations.
 
 (* In the event history of ANY run of the scheduler model (any configuration, any number of models and
@@ -84,3 +84,19 @@ Definition C01_no_grant_closed_full : Prop := no_grant_closed_full.
 Theorem C01_no_grant_closed_refuted : ~ C01_no_grant_closed_full.
 Proof. exact no_grant_closed_refuted. Qed.
 Print Assumptions C01_no_grant_closed_refuted.
+
+(* The health check needsReload relies on (Sched/LlmHealth.v): an llm server is alive until it is shut down - by the
+   scheduler's unload (Close), by Completion's crash path, or because its process exits - and never comes back.  In
+   every history of operations a successful probe (Ping / WaitUntilRunning) implies that no shut-down came before it;
+   conversely a server that was never shut down answers every probe.  The real llm.llmServer is compared with this
+   machine, operation by operation, by the llm stage of the scheduler harness. *)
+Theorem C01_ping_ok_not_closed :
+  forall ops k, nth_error (hrun true ops) k = Some (Some true) -> forallb (fun o => negb (closes o)) (firstn k ops) = true.
+Proof. exact ping_ok_not_closed. Qed.
+Print Assumptions C01_ping_ok_not_closed.
+
+Theorem C01_alive_probe_ok :
+  forall ops k o, nth_error ops k = Some o -> (o = HPing \/ o = HWait) ->
+  forallb (fun o => negb (closes o)) (firstn k ops) = true -> nth_error (hrun true ops) k = Some (Some true).
+Proof. exact alive_probe_ok. Qed.
+Print Assumptions C01_alive_probe_ok.
